@@ -401,12 +401,89 @@ func genC04Stale(d *Draw) Case {
 	return c
 }
 
+// genC04Loop: one token passes the same exclusive gateway several times (a loop), and what the gateway has to
+// decide changes from pass to pass: the default first and a condition later, or the other way round. Whatever
+// the gateway (or the flow) remembers of an earlier pass must not decide a later one.
+func genC04Loop(d *Draw) Case {
+	defs := &Definitions{}
+	g := &Graph{ID: "P1", Executable: true}
+	defs.Procs = []*Graph{g}
+	rounds := 2 + d.N(3)
+	exitByCond := d.Bool() // the loop is left over a condition (and continued by default), or continued over a condition
+	lang := ""
+	if d.N(3) == 2 {
+		lang = "xpath"
+	}
+	g.addNode(&Node{ID: "Start", Kind: "start"})
+	g.addNode(&Node{ID: "LM", Kind: "xor"})
+	g.connect(defs, "Start", "LM", nil, -1)
+	tw := g.addNode(&Node{ID: "TW", Kind: "task", Results: []string{"r_TW", "n"}, Counter: "n"})
+	g.connect(defs, "LM", tw.ID, nil, -1)
+	g.addNode(&Node{ID: "X", Kind: "xor"})
+	g.connect(defs, tw.ID, "X", nil, -1)
+	g.addNode(&Node{ID: "TD", Kind: "task", Results: []string{"r_TD"}})
+	g.addNode(&Node{ID: "E", Kind: "end"})
+	g.connect(defs, "TD", "E", nil, -1)
+	// an optional further conditional flow that never holds, listed first
+	vars := map[string]any{}
+	if d.Bool() {
+		vars["never"] = false
+		g.addNode(&Node{ID: "TN", Kind: "task"})
+		g.addNode(&Node{ID: "EN", Kind: "end"})
+		g.connect(defs, "X", "TN", &Cond{Var: "never", Want: true, Lang: lang}, -1)
+		g.connect(defs, "TN", "EN", nil, -1)
+	}
+	back, out := "LM", "TD"
+	if d.Bool() {
+		// the way back leads through a task
+		g.addNode(&Node{ID: "TB", Kind: "task", Results: []string{"r_TB"}})
+		g.connect(defs, "TB", "LM", nil, -1)
+		back = "TB"
+	}
+	connectBoth := func(first bool) {
+		if exitByCond {
+			if first {
+				g.connect(defs, "X", out, &Cond{LtVar: "n", Lt: rounds, Ge: true, Lang: lang}, -1)
+			} else {
+				f := g.connect(defs, "X", back, nil, -1)
+				g.Node("X").Default = f.ID
+			}
+		} else {
+			if first {
+				g.connect(defs, "X", back, &Cond{LtVar: "n", Lt: rounds, Lang: lang}, -1)
+			} else {
+				f := g.connect(defs, "X", out, nil, -1)
+				g.Node("X").Default = f.ID
+			}
+		}
+	}
+	if d.Bool() { // the default is listed before or after the conditional flow
+		connectBoth(true)
+		connectBoth(false)
+	} else {
+		connectBoth(false)
+		connectBoth(true)
+	}
+	g.index()
+	tags := []string{"gateway-in-loop"}
+	if lang == "xpath" {
+		tags = append(tags, "xpath")
+	}
+	prog := &Program{Defs: defs, Vars: vars, Desc: fmt.Sprintf("one token passes the gateway %d times (loop), leaves the loop by condition=%v, lang=%q", rounds, exitByCond, lang), Tags: tags}
+	c := &ProcCase{Prog: prog, Buf: d.N(17), Hold: d.N(3)}
+	c.Picks = drawPicks(d, 24)
+	c.Meta = map[string]int{"k": 1, "loop": rounds}
+	return c
+}
+
 func genC04(d *Draw) Case {
-	switch d.N(6) {
+	switch d.N(7) {
 	case 4:
 		return genC04PerToken(d)
 	case 5:
 		return genC04Stale(d)
+	case 6:
+		return genC04Loop(d)
 	}
 	if d.N(3) == 2 {
 		return genC04PerToken(d)
@@ -537,6 +614,7 @@ func checkC04(cc Case, r *simrt.Result) *Outcome {
 	o.Tags = c.Prog.Tags
 	o.Nontrivial = r.Switches > 0
 	probe(o, "concurrent-tokens", c.Meta["k"] > 1)
+	probe(o, "one-token-passes-the-gateway-several-times", c.Meta["loop"] > 0)
 	probe(o, "no-effective-flow", len(tg.M.Errors) > 0)
 	probe(o, "xpath", hasTag(c.Prog.Tags, "xpath"))
 	probe(o, "informal-expression", hasTag(c.Prog.Tags, "informal-expression"))
